@@ -188,7 +188,9 @@ def classify(results):
         if status != "FAILURE":
             out["undecided"] = out.get("undecided", 0) + 1
             continue
-        if cls == "unwind" or "unwinding assertion" in desc or "recursion unwinding" in desc:
+        # the symbolic hash model keeps a table of N queried points; running out of it is a bound of the
+        # model (like an unwinding bound), not a property violation of the code under test
+        if cls == "unwind" or "unwinding assertion" in desc or "recursion unwinding" in desc or "SymHash table bound exceeded" in desc:
             out["unwind_fail"].append(rec)
         elif cls == "unsupported_construct":
             out["unsupported_fail"].append(rec)
